@@ -47,9 +47,15 @@ def load_known(pid):
     return [k for k in data.get("findings", []) if k.get("property") == pid]
 
 
-def match_known(known, sig):
+def match_known(known, sig, labels=()):
+    """a violation belongs to a known finding if its signature matches, or if the case carries the
+    label the finding declares as its trigger shape (`exclude_label`): cases of that shape are
+    attributed to the finding (counted), so the search continues behind it"""
     for k in known:
         if re.fullmatch(k["signature"], sig):
+            return k
+    for k in known:
+        if k.get("exclude_label") and k["exclude_label"] in labels:
             return k
     return None
 
@@ -91,8 +97,8 @@ class Env:
         for r in self._runners.values():
             r.restart()
 
-    def is_known(self, sig):
-        return match_known(self.known, sig)
+    def is_known(self, sig, labels=()):
+        return match_known(self.known, sig, labels)
 
 
 def case_hash(case):
@@ -168,7 +174,7 @@ def _worker_body(pid, tier, seed, widx, sizes, q):
                 elif rng.random() < 0.002:
                     stats["samples"][rng.randrange(3)] = case
         if res.violation is not None:
-            k = env.is_known(res.violation["sig"])
+            k = env.is_known(res.violation["sig"], res.labels)
             if k is not None:
                 stats["known_hits"][k["signature"]] = stats["known_hits"].get(k["signature"], 0) + 1
                 return
@@ -205,7 +211,7 @@ def _worker_body(pid, tier, seed, widx, sizes, q):
             for _ in range(3):
                 env.restart_runners()
                 r = run_case_guarded(mod, case, env)
-                if r.violation is not None and env.is_known(r.violation["sig"]) is None:
+                if r.violation is not None and env.is_known(r.violation["sig"], r.labels) is None:
                     fails += 1
                     sigs.append(r.violation["sig"])
             if fails == 3:
@@ -257,7 +263,7 @@ def run_property(pid, tier, seed):
         if res.nontrivial:
             agg["nontrivial"].add(res.key or case_hash(case))
         if res.violation is not None:
-            k = match_known(known, res.violation["sig"])
+            k = match_known(known, res.violation["sig"], res.labels)
             if k is not None:
                 known_confirmed.add(k["signature"])
                 agg["known_hits"][k["signature"]] = agg["known_hits"].get(k["signature"], 0) + 1
